@@ -23,7 +23,7 @@ ASSUMPTIONS = ['base calls are only checked where every sensible likelihood agre
                'with identical quality multisets give N; one base dominating in count and in every quality gives that base',
                'the MD tag is parsed tolerantly (missing zero separators accepted): only its meaning is compared with the reference']
 MIN_NONTRIVIAL = {'quick': 150, 'thorough': 30000}
-REQUIRED_MONITORS = ['history:grown_molecules', 'lib:reads_with_indel', 'ret:deduplicate_majority', 'reads:checked', 'reads:gapped', 'reads:reverse', 'bases:decidable_checked', 'bases:conflict_N_expected',
+REQUIRED_MONITORS = ['history:grown_molecules', 'lib:reads_with_indel', 'ret:deduplicate_majority', 'reads:checked', 'reads:gapped', 'reads:reverse', 'bases:decidable_checked', 'bases:conflict_N_expected', 'bases:model_checked', 'bases:near_tie_checked', 'lib:near_tie_planted',
                      'cli:consensus_reads_checked', 'split:max_N_span']
 SHARD_TIMEOUT = {'quick': 900, 'thorough': 5400}
 
@@ -68,6 +68,111 @@ def md_reference(read):
     if i != len(aligned_q):
         return None
     return ''.join(ref)
+
+
+def model_call(o):
+    """The repository's likelihood model in 60-digit arithmetic. o: list of (base, phred) observations of one position (one per read).
+    likelihood(b) = prod(1 - 10^(-q/10) over the observations of b) * 4^(n_b - 1); the pseudo base N gets prod(10^(-q/10)) * 4^(n - 1).
+    Returns (expected call or None when the two best candidates are closer than 1e-9 relative, relative gap)."""
+    from decimal import Decimal, getcontext
+    getcontext().prec = 60
+    per = defaultdict(list)
+    for b, q in o:
+        per[b].append(1 - Decimal(10) ** (Decimal(-int(q)) / 10))
+    per['N'] = [1 - p for b, ps in per.items() if b != 'N' for p in ps]
+    like = {}
+    for b, ps in per.items():
+        v = Decimal(1)
+        for p_ in ps:
+            v *= p_
+        like[b] = v / (Decimal('0.25') ** (len(ps) - 1))
+    ranked = sorted(like.items(), key=lambda kv: -kv[1])
+    if len(ranked) == 1:
+        return ranked[0][0], 1.0
+    (b1, l1), (b2, l2) = ranked[:2]
+    if l1 == 0:
+        return None, 0.0
+    gap = float((l1 - l2) / l1)
+    if gap > 1e-9:
+        return b1, gap
+    if l1 == l2 and all(len(ps) <= 2 for ps in per.values()):
+        return 'N', 0.0
+    return None, gap
+
+
+_NEAR = []
+
+
+def near_tie_patterns():
+    """quality patterns (two reads against two reads) whose likelihoods differ by a relative 1e-8 .. 1e-5: decidable, but only just"""
+    if not _NEAR:
+        import numpy as np
+        qs = np.arange(20, 46)
+        e = 1 - np.power(10.0, -qs / 10)
+        pair = np.outer(e, e)
+        iu = [(i, j) for i in range(len(qs)) for j in range(i, len(qs))]
+        vals = np.array([pair[i, j] for i, j in iu])
+        order = np.argsort(vals)
+        for a, b in zip(order[:-1], order[1:]):
+            for c in (b,):
+                gap = abs(vals[a] - vals[c]) / max(vals[a], vals[c])
+                if 1e-8 < gap < 1e-5 and set(iu[a]) != set(iu[c]):
+                    _NEAR.append(((int(qs[iu[a][0]]), int(qs[iu[a][1]])), (int(qs[iu[c][0]]), int(qs[iu[c][1]]))))
+    return _NEAR
+
+
+def plant_conflicts(r, gen, recs, truths, acc):
+    """Rewrites one position of read 1 in molecules of >= 4 (or 2) fragments so that two bases are supported by planted quality patterns."""
+    by_key = defaultdict(list)
+    for t in truths.values():
+        if t.get('valid'):
+            by_key[t['key']].append(t['id'])
+    r1 = {}
+    for rec in recs:
+        if not rec['flag'] & 128 and re.fullmatch(r'\d+M', rec['cigar'] or ''):
+            r1[F.id_from_name(rec['name'])] = rec
+    pats = near_tie_patterns()
+    for key, ids in by_key.items():
+        ids = [i for i in ids if i in r1]
+        if len(ids) < 2 or r.random() < 0.3:
+            continue
+        lo = max(r1[i]['pos'] for i in ids) + 6
+        hi = min(r1[i]['pos'] + len(r1[i]['seq']) for i in ids) - 6
+        if hi <= lo:
+            continue
+        pos = r.randrange(lo, hi)
+        ref = gen.get(gen.refs[r1[ids[0]]['tid']][0])
+        b1 = ref[pos]
+        b2 = r.choice([c for c in 'ACGT' if c != b1])
+        if len(ids) >= 4 and pats and r.random() < 0.8:
+            (qa, qb), (qc, qd) = r.choice(pats)
+            if r.random() < 0.5:
+                (qa, qb), (qc, qd) = (qc, qd), (qa, qb)
+            plan = [(b1, qa), (b1, qb), (b2, qc), (b2, qd)]
+            acc.count('lib:near_tie_planted')
+        else:
+            q = r.choice([20, 30, 37, 41])
+            plan = r.choice([[(b1, q), (b2, q)], [(b1, q), (b2, q + 1)], [(b1, 44), (b2, 45)], [(b1, q), (b1, q), (b2, q)]])
+            if len(plan) > len(ids):
+                plan = plan[:2]
+        r.shuffle(plan)
+        for i, (b, q) in zip(ids, plan):
+            rec = r1[i]
+            qp = pos - rec['pos']
+            rec['seq'] = rec['seq'][:qp] + b + rec['seq'][qp + 1:]
+            rec['qual'] = list(rec['qual'])
+            rec['qual'][qp] = q
+        # the remaining fragments of the molecule do not cover the position with read 1 any more: blank it with an N of quality 2
+        for i in ids[len(plan):]:
+            rec = r1[i]
+            qp = pos - rec['pos']
+            rec['seq'] = rec['seq'][:qp] + 'N' + rec['seq'][qp + 1:]
+            rec['qual'] = list(rec['qual'])
+            rec['qual'][qp] = 2
+        for i in ids:
+            rec = r1[i]
+            md, nm = F.md_nm(ref[rec['pos']:rec['pos'] + len(rec['seq'])], rec['seq'])
+            rec['tags']['MD'], rec['tags']['NM'] = md, nm
 
 
 def check_consensus_reads(acc, reads, mol_recs, gen, contig, truth_tags, label, wit):
@@ -128,6 +233,18 @@ def check_consensus_reads(acc, reads, mol_recs, gen, contig, truth_tags, label, 
                 continue
             bases = Counter(b for b, q in o)
             call = seq[qp]
+            if len(bases) >= 2:
+                exp_model, gap = model_call(o)
+                if exp_model is not None:
+                    acc.count('bases:model_checked')
+                    if gap < 1e-4:
+                        acc.count('bases:near_tie_checked')
+                    if call != exp_model:
+                        mech = 'consensus-base-not-the-most-likely-call' if exp_model != 'N' else 'consensus-tie-not-N'
+                        if exp_model != 'N' and call == 'N' and gap < 1e-4:
+                            mech = 'consensus-N-for-a-decidable-near-tie'
+                        acc.violate(mech, f'{label}: position {rp}: observations {sorted(o)} make {exp_model!r} the call (relative likelihood gap {gap:.3g}) '
+                                          f'but the consensus says {call!r}', wit)
             if len(bases) == 1 and all(q >= 10 for b, q in o) and 'N' not in bases:
                 acc.count('bases:decidable_checked')
                 exp = next(iter(bases))
@@ -197,7 +314,7 @@ def run_case(case):
                 umi = F.rand_dna(r, 3)
                 cell = r.randint(1, 2)
                 reverse = r.random() < 0.5
-                for _ in range(r.randint(1, 5)):
+                for _ in range(r.choice([1, 2, 3, 4, 4, 5, 6])):
                     rl = r.randint(30, 40)
                     qual = None
                     if r.random() < 0.5:
@@ -213,6 +330,7 @@ def run_case(case):
                     rid += 1
     if not truths:
         return acc
+    plant_conflicts(r, gen, recs, truths, acc)
     acc.count('lib:reads_with_indel', sum(1 for x in recs if 'I' in x['cigar'] or 'D' in x['cigar']))
     byid = defaultdict(list)
     for rec in recs:
